@@ -10,6 +10,8 @@
 //! One case per line:
 //!   ev <ver:1|2> <end:le|be> <tc> | <T1> | <T2> | <value of T2>
 //!   as <tc> | <CTO1> | <CTO2>                 assignability of two hand-built CompleteTypeObjects
+//!   ty <k> <ver> <end> <tc> | <i32>*          pair k of the compile-time (#[derive(DdsType)]) catalogue below:
+//!                                             as `ev`, plus the typed sample `Reader::create_sample(decoded)`
 //! <tc> = bit mask: 1 ignore_sequence_bounds 2 ignore_string_bounds 4 ignore_member_names
 //!        8 prevent_type_widening 16 force_type_validation 32 kind = DISALLOW_TYPE_COERCION
 //! Type syntax:
@@ -29,6 +31,8 @@
 //!   ev: `A <0|1|P> C <CTO1> ; <CTO2> ; <ser>` with <ser> = `S <hex> <dec>` | `SE <code>` | `SP`
 //!       and <dec> = `D d <n> ...` | `E <code>` | `P`
 //!   as: `A <0|1|P>`
+//!   ty: the `ev` output followed by ` ; TY some <n> (<id> <value>)*` (create_dynamic_sample of the typed
+//!       sample) | ` ; TY none` | ` ; TY na` (nothing was decoded)
 #![allow(dead_code, unused_imports, unused_variables, unused_macros)]
 extern crate alloc;
 extern crate self as tracing;
@@ -58,7 +62,52 @@ use dust_dds::xtypes::{
     error::XTypesError,
     type_object::*,
 };
+use dust_dds::infrastructure::type_support::DdsType;
+use dust_dds::xtypes::type_support::{Type, TypeSupport};
 use std::panic::{catch_unwind, AssertUnwindSafe};
+
+// ------------------------------------------------------------ compile-time type catalogue
+// names follow the token convention of the run-time types: type "X<k>", members "m<k>"
+#[derive(Debug, PartialEq, DdsType)]
+#[dust_dds(extensibility = "appendable")]
+struct A1 {
+    m0: i32,
+}
+#[derive(Debug, PartialEq, DdsType)]
+#[dust_dds(extensibility = "appendable")]
+struct A2 {
+    m0: i32,
+    m1: i32,
+}
+#[derive(Debug, PartialEq, DdsType)]
+#[dust_dds(extensibility = "appendable")]
+struct A3 {
+    m0: i32,
+    #[dust_dds(try_construct = "USE_DEFAULT")]
+    m1: i32,
+}
+#[derive(Debug, PartialEq, DdsType)]
+#[dust_dds(extensibility = "mutable")]
+struct M1 {
+    #[dust_dds(id = 1)]
+    m0: i32,
+}
+#[derive(Debug, PartialEq, DdsType)]
+#[dust_dds(extensibility = "mutable")]
+struct M2 {
+    #[dust_dds(id = 1)]
+    m0: i32,
+    #[dust_dds(id = 2)]
+    m1: i32,
+}
+#[derive(Debug, PartialEq, DdsType)]
+#[dust_dds(extensibility = "mutable")]
+struct M3 {
+    #[dust_dds(id = 1)]
+    m0: i32,
+    #[dust_dds(id = 2, optional)]
+    m1: Option<i32>,
+}
 
 struct Toks<'a> {
     t: Vec<&'a str>,
@@ -602,6 +651,45 @@ fn assignable(
     }
 }
 
+/// reader type R := writer type W on the writer sample `w`
+fn typed_pair<W: TypeSupport + Type, R: TypeSupport + Type>(
+    w: W,
+    ver: i128,
+    end: &str,
+    tc: &TypeConsistencyEnforcementQosPolicy,
+) -> String {
+    let c1 = CompleteTypeObject::from(R::TYPE);
+    let c2 = CompleteTypeObject::from(W::TYPE);
+    let a = assignable(&c1, &c2, tc);
+    let data = w.create_dynamic_sample();
+    let r = catch_unwind(AssertUnwindSafe(|| match (ver, end) {
+        (1, "le") => xtypes::serializer::serialize_cdr1_le(&data),
+        (1, "be") => xtypes::serializer::serialize_cdr1_be(&data),
+        (2, "le") => xtypes::serializer::serialize_cdr2_le(&data),
+        (2, "be") => xtypes::serializer::serialize_cdr2_be(&data),
+        _ => panic!("bad version / endianness"),
+    }));
+    let (ser, typed) = match r {
+        Err(_) => ("SP".to_string(), "na".to_string()),
+        Ok(Err(e)) => (format!("SE {}", code(&e)), "na".to_string()),
+        Ok(Ok(bytes)) => {
+            let dec = decode(R::TYPE, &bytes);
+            // what DataReader<R> hands to the application (Sample::new)
+            let typed = match catch_unwind(AssertUnwindSafe(|| {
+                xtypes::deserializer::deserialize_top_level_type(R::TYPE, &bytes)
+                    .ok()
+                    .map(|mut d| R::create_sample(&mut d).map(|s| show_data(&s.create_dynamic_sample())))
+            })) {
+                Ok(Some(Some(s))) => format!("some {s}"),
+                Ok(Some(None)) => "none".to_string(),
+                _ => "na".to_string(),
+            };
+            (format!("S {} {}", vh::util::to_hex(&bytes), dec), typed)
+        }
+    };
+    format!("A {} C {} ; {} ; {} ; TY {}", a, show_cto(&c1), show_cto(&c2), ser, typed)
+}
+
 fn run_line(line: &str) -> String {
     let parts: Vec<&str> = line.split('|').collect();
     let mut t = Toks::new(parts[0]);
@@ -634,6 +722,24 @@ fn run_line(line: &str) -> String {
                 Ok(Ok(bytes)) => format!("S {} {}", vh::util::to_hex(&bytes), decode(t1, &bytes)),
             };
             format!("A {} C {} ; {} ; {}", a, show_cto(&c1), show_cto(&c2), ser)
+        }
+        "ty" => {
+            let k = t.int();
+            let ver = t.int();
+            let end = t.next();
+            let tc = tc_of(t.int());
+            let v: Vec<i32> = vh::util::ints(parts[1]).iter().map(|x| *x as i32).collect();
+            match k {
+                0 => typed_pair::<A2, A1>(A2 { m0: v[0], m1: v[1] }, ver, end, &tc),
+                1 => typed_pair::<A1, A2>(A1 { m0: v[0] }, ver, end, &tc),
+                2 => typed_pair::<A1, A3>(A1 { m0: v[0] }, ver, end, &tc),
+                3 => typed_pair::<M1, M2>(M1 { m0: v[0] }, ver, end, &tc),
+                4 => typed_pair::<M2, M1>(M2 { m0: v[0], m1: v[1] }, ver, end, &tc),
+                5 => typed_pair::<M1, M3>(M1 { m0: v[0] }, ver, end, &tc),
+                6 => typed_pair::<A2, A2>(A2 { m0: v[0], m1: v[1] }, ver, end, &tc),
+                7 => typed_pair::<M3, M2>(M3 { m0: v[0], m1: if v[1] == 0 { None } else { Some(v[1]) } }, ver, end, &tc),
+                _ => "BADOP".to_string(),
+            }
         }
         "as" => {
             let tc = tc_of(t.int());
